@@ -29,7 +29,21 @@ pub fn uri_of(path: &Path) -> String {
 
 impl Lsp {
     pub fn spawn(cwd: &Path, extra_env: &[(&str, String)]) -> std::io::Result<Lsp> {
-        let mut cmd = Command::new(glas_bin());
+        Self::spawn_bin(&glas_bin(), cwd, extra_env)
+    }
+
+    /// The same server built with the cargo feature `verif` (seeded yield points), if `./check` built it.
+    pub fn hooked_bin() -> Option<String> {
+        let p = std::env::var("GLAS_BIN_HOOKED").ok()?;
+        if std::path::Path::new(&p).is_file() {
+            Some(p)
+        } else {
+            None
+        }
+    }
+
+    pub fn spawn_bin(bin: &str, cwd: &Path, extra_env: &[(&str, String)]) -> std::io::Result<Lsp> {
+        let mut cmd = Command::new(bin);
         cmd.arg("--stdio").current_dir(cwd).stdin(Stdio::piped()).stdout(Stdio::piped()).stderr(Stdio::piped());
         // make sure no `gleam` binary is picked up: behaviour must not depend on the machine
         cmd.env("PATH", "/nonexistent-bin");
